@@ -4,6 +4,7 @@ import (
 	"crypto/rand"
 	"crypto/sha256"
 	"encoding/binary"
+	"errors"
 	"io"
 	"sync"
 )
@@ -21,6 +22,19 @@ type Tape struct {
 	Reads []TapeRead
 	// Patch overrides the bytes of read number k (perturbation experiments).
 	Patch map[int]uint64
+	// FailAt >= 0 makes read number FailAt fail (after FailShort bytes): a
+	// broken system CSPRNG.
+	FailAt    int
+	FailShort int
+	failArmed bool
+}
+
+// ErrEntropy is what a failing tape returns.
+var ErrEntropy = errors.New("hx: entropy source unavailable")
+
+// NewFailingTape returns a tape whose read number k fails after short bytes.
+func NewFailingTape(seed uint64, k, short int) *Tape {
+	return &Tape{Seed: seed, FailAt: k, FailShort: short, failArmed: true}
 }
 
 type TapeRead struct {
@@ -46,6 +60,16 @@ func (t *Tape) Read(p []byte) (int, error) {
 	t.mu.Lock()
 	defer t.mu.Unlock()
 	k := len(t.Reads)
+	if t.failArmed && k == t.FailAt {
+		n := t.FailShort
+		if n > len(p) {
+			n = len(p)
+		}
+		copy(p, tapeBytes(t.Seed, t.Off, n))
+		t.Reads = append(t.Reads, TapeRead{Off: t.Off, Len: n, Data: append([]byte{}, p[:n]...)})
+		t.Off += n
+		return n, ErrEntropy
+	}
 	seed := t.Seed
 	if alt, ok := t.Patch[k]; ok {
 		seed = alt
